@@ -16,6 +16,7 @@ Section Oracles.
     is_assignment w = false -> mem_str w WRAPPER_COMMANDS = true -> mcmd c (w :: rest) = None ->
     (str_eqb w $"command" && mem_str (nth 0 rest []) COMMAND_V_FLAGS) = false ->
     skip_wrapper_args w rest = inner -> inner <> [] ->
+    (negb (str_eqb w $"time") && is_assignment (hd [] inner)) = false ->
     ladder c (w :: rest) = ladder c inner.
   Proof. exact (wrapper_transparent mcmd handler mredir astr). Qed.
 
@@ -39,6 +40,7 @@ Section Oracles.
     forallb (plain_opt (assoc_flags w WRAPPER_FLAGS_WITH_ARG)) opts = true ->
     length ops = assoc_nat w WRAPPER_OPERANDS ->
     operand_word (hd cmd ops) = true -> mem_str (hd cmd ops) (assoc_flags w WRAPPER_FLAGS_WITH_ARG) = false ->
+    (negb (str_eqb w $"time") && is_assignment cmd) = false ->
     ladder c (w :: opts ++ ops ++ cmd :: args) = ladder c (cmd :: args).
   Proof. exact (wrapper_args_irrelevant mcmd handler mredir astr). Qed.
   (* time / nice / nohup / command / builtin / strace / ltrace directly followed by the command: exact *)
@@ -46,8 +48,17 @@ Section Oracles.
     is_assignment w = false -> mem_str w WRAPPER_COMMANDS = true -> assoc_nat w WRAPPER_OPERANDS = 0%nat ->
     mcmd c (w :: cmd :: args) = None ->
     operand_word cmd = true -> mem_str cmd (assoc_flags w WRAPPER_FLAGS_WITH_ARG) = false ->
+    (negb (str_eqb w $"time") && is_assignment cmd) = false ->
     ladder c (w :: cmd :: args) = ladder c (cmd :: args).
   Proof. exact (plain_wrapper_exact mcmd handler mredir astr). Qed.
+  (* repair of `nice A=1 ls` (approved as ls; nice runs a program called A=1): behind a wrapper PROGRAM - every wrapper
+     but the keyword time - a NAME=value word is the command's name, an unknown program: asked about, whatever follows *)
+  Theorem C04_wrapper_runs_assignment_word : forall c w rest a inner,
+    is_assignment w = false -> mem_str w WRAPPER_COMMANDS = true -> mcmd c (w :: rest) = None ->
+    (str_eqb w $"command" && mem_str (nth 0 rest []) COMMAND_V_FLAGS) = false ->
+    skip_wrapper_args w rest = a :: inner -> str_eqb w $"time" = false -> is_assignment a = true ->
+    ladder c (w :: rest) = Ask.
+  Proof. exact (wrapper_assignment_word_asks mcmd handler mredir astr). Qed.
   Theorem C04_unwrapping_stops_at_command : forall w opts ops cmd args,
     forallb (plain_opt (assoc_flags w WRAPPER_FLAGS_WITH_ARG)) opts = true ->
     length ops = assoc_nat w WRAPPER_OPERANDS ->
@@ -71,6 +82,7 @@ Print Assumptions C04_wrapper_options.
 Print Assumptions C04_wrapper_dashdash.
 Print Assumptions C04_inner_arguments_never_consulted.
 Print Assumptions C04_plain_wrapper_exact.
+Print Assumptions C04_wrapper_runs_assignment_word.
 Print Assumptions C04_unwrapping_stops_at_command.
 Print Assumptions C04_env_prefix.
 Print Assumptions C04_delegate_decides.
